@@ -58,6 +58,20 @@ def disc2(s, observed):
     return ((np.asarray(s, dtype=float) - observed[0]) ** 2).reshape(len(s), -1).sum(axis=1)
 
 
+def summ_b(y):
+    if y is not OBS:
+        _bump('S2')
+    return 3.0 * np.asarray(y, dtype=float) + 1.0
+
+
+def disc_b(s, observed):
+    _bump('d2')
+    return np.abs(np.asarray(s, dtype=float) - observed[0]).reshape(len(s), -1).sum(axis=1)
+
+
+NEEDED = {'d': {'t', 'Y', 'S', 'd'}, 'd2': {'t', 'Y', 'S2', 'd2'}}    # nodes of the net compiled for a target
+
+
 def build_model(variant):
     """variant: tuple of applied replacements, subset of ('S', 'd'), applied through become()."""
     import elfi
@@ -66,6 +80,10 @@ def build_model(variant):
     Y = elfi.Simulator(sim, t, model=m, name='Y', observed=OBS)
     S = elfi.Summary(summ, Y, model=m, name='S')
     elfi.Discrepancy(disc, S, model=m, name='d')
+    # a second branch below the simulator: runs that target 'd' never need it, runs that target 'd2' need it instead
+    # of the first branch (a pool that stores S2 then holds batches for some of its stores only)
+    S2 = elfi.Summary(summ_b, Y, model=m, name='S2')
+    elfi.Discrepancy(disc_b, S2, model=m, name='d2')
     for v in variant:
         apply_become(m, v)
     return m
@@ -87,7 +105,7 @@ def sample_obs(res):
 
 
 def run_kwargs(op, bs):
-    if op[0] in ('run', 'run_same_obj'):
+    if op[0] in ('run', 'run_same_obj', 'run2'):
         return dict(n_sim=op[1] * bs)
     if op[0] == 'run_q':
         return dict(quantile=0.5)
@@ -96,7 +114,7 @@ def run_kwargs(op, bs):
 
 def n_batches_of(op, bs):
     import math
-    if op[0] in ('run', 'run_same_obj'):
+    if op[0] in ('run', 'run_same_obj', 'run2'):
         return op[1]
     return math.ceil(math.ceil(2 / 0.5) / bs)
 
@@ -121,6 +139,8 @@ class World:
 
     def enabled(self):
         ops = [('run', 2), ('run', 3), ('run', 5), ('run_q',)]
+        if self.cfg.get('branch'):
+            ops += [('run2', 2), ('run2', 4)]
         if self.cfg.get('same_obj') and self.sampler is not None:
             ops.append(('run_same_obj', 4))
         for x in self.stores_present():
@@ -153,22 +173,25 @@ class World:
         bs, seed = cfg['bs'], cfg['seed']
         k = op[0]
         what = {'cfg': cfg, 'history': [list(o) for o in hist_so_far]}
-        if k in ('run', 'run_q', 'run_same_obj'):
+        if k in ('run', 'run_q', 'run_same_obj', 'run2'):
             before = self.pool_table()
             CALLS.clear()
+            target = 'd2' if k == 'run2' else 'd'
+            outs = [('S2' if o == 'S' and target == 'd2' else o) for o in cfg.get('outs', ['S', 'Y'])]
+            needed = NEEDED[target]
             if k == 'run_same_obj':
                 rej = self.sampler
             else:
-                rej = elfi.Rejection(self.m, 'd', output_names=list(cfg.get('outs', ['S', 'Y'])), batch_size=bs, seed=seed, pool=self.pool,
+                rej = elfi.Rejection(self.m, target, output_names=list(outs), batch_size=bs, seed=seed, pool=self.pool,
                                      max_parallel_batches=1)
-                self.sampler = rej
+                self.sampler = rej if k != 'run2' else None
             res = rej.sample(2, bar=False, **run_kwargs(op, bs))
             calls = dict(CALLS)
             nb = n_batches_of(op, bs)
             # pool-free reference on the current model
             ref_m = build_model(self.variant)
             CALLS.clear()
-            ref = elfi.Rejection(ref_m, 'd', output_names=list(cfg.get('outs', ['S', 'Y'])), batch_size=bs, seed=seed,
+            ref = elfi.Rejection(ref_m, target, output_names=list(outs), batch_size=bs, seed=seed,
                                  max_parallel_batches=1).sample(2, bar=False, **run_kwargs(op, bs))
             if sample_obs(res) != sample_obs(ref):
                 filling = not before or all(not v for v in before.values())
@@ -182,7 +205,7 @@ class World:
                              ref={k2: np.asarray(v).tolist() for k2, v in ref.outputs.items()}))
             # stored nodes are not recomputed for batches the pool holds
             for x in self.stores_present():
-                if x == 't':
+                if x == 't' or x not in needed:
                     continue
                 held_x = len(before.get(x, {}))
                 exp = max(0, nb - held_x)
@@ -202,13 +225,21 @@ class World:
                 # a store added when the pool was created holds every batch consumed so far; a batch consumed before
                 # the store's node was replaced is dropped together with the store (documented workflow)
                 exp_idx = list(range(max(nb, len(before.get(x, {})))))
+                if x not in needed:
+                    exp_idx = sorted(before.get(x, {}))      # not part of this run's net: untouched
                 if have != exp_idx:
                     return ('C05:pool-does-not-hold-exactly-the-consumed-batches', dict(what, node=x, held=have,
                                                                                        expected=exp_idx))
-                for i in have[:nb]:
+                for i in (have[:nb] if x in needed else have):
                     fresh = np.asarray(bh.compute(i)[x])
                     if not (fresh.shape == after[x][i].shape and np.array_equal(fresh, after[x][i])):
-                        return ('C05:pool-value-differs-from-fresh-computation', dict(what, node=x, batch=i,
+                        sig = 'C05:pool-value-differs-from-fresh-computation'
+                        if ('t' in self.pool.stores and 'Y' not in self.pool.stores and calls.get('Y', 0) > 0
+                                and i < len(before.get('t', {})) and i not in before.get(x, {})):
+                            # same root cause as the known result difference: the batch's parameters came from the pool,
+                            # the simulator above this store ran again on a shifted random stream
+                            sig += ':parameters-loaded-from-pool-but-simulator-recomputed'
+                        return (sig, dict(what, node=x, batch=i,
                                                                                      pool=after[x][i].tolist(),
                                                                                      fresh=fresh.tolist()))
         elif k == 'remove_store':
@@ -361,6 +392,13 @@ def run(ctx):
                                 continue
                             cfgs.append({'sigma': list(sigma), 'with_params': wp, 'pool': pool, 'bs': bs, 'seed': seed,
                                          'same_obj': not q, 'outs': outs})
+    # branching configurations: the pool also stores the summary of the second branch
+    for sigma in (['Y', 'S', 'S2'], ['S', 'S2'], ['S2'], ['S2', 'd']):
+        for wp in (False, True):
+            for pool in ('mem', 'array'):
+                for bs in ((1,) if q else (1, 3)):
+                    cfgs.append({'sigma': list(sigma), 'with_params': wp, 'pool': pool, 'bs': bs, 'seed': base + 1,
+                                 'same_obj': False, 'outs': [], 'branch': True})
     cases = [{'kind': 'cfg', 'cfg': c, 'depth': depth} for c in cfgs]
 
     def post(case, r):
@@ -383,7 +421,7 @@ def run(ctx):
                     'stores of S and d, rerun needing more batches than stored'}, key='ex')
     ctx.extra['depth_after_fill'] = depth
     ctx.rule = ('per configuration (stored node set: every non-empty subset of {simulator, summary, discrepancy}, optionally '
-                'plus all parameters; in-memory | on-disk pool; batch_size; seed; extra requested outputs {summary, simulator} or none) BFS over histories of depth <= %d after the '
+                'plus all parameters; in-memory | on-disk pool; batch_size; seed; extra requested outputs {summary, simulator} or none; plus branching configurations whose pool also stores the summary of a second branch and whose runs alternate between two target discrepancies) BFS over histories of depth <= %d after the '
                 'filling run over {run with 2/3/5 batches, quantile run, remove a store, replace summary|discrepancy via become '
                 'and drop its stores, close+open (on-disk), refused contexts%s}; canonical-state dedup on (pool content, model '
                 'variant); every history distinct' % (depth, '' if q else ', rerun on the same sampler object'))
